@@ -63,6 +63,27 @@ func TestVerifScenarioC16Cancel(t *testing.T) {
 	fmt.Println("VSCENARIO-OK")
 }
 
+// context cancellation alone (nobody calls Stop): the discipline must still complete (Err() is closed)
+func TestVerifScenarioC16CancelOnly(t *testing.T) {
+	in := make(chan int, 1)
+	in <- 1
+	out := make(chan Prioritized[int], 1)
+	fb := make(chan uint)
+	ctx, cancel := context.WithCancel(context.Background())
+	d, err := New(Opts[int]{Ctx: ctx, Divider: FairDivider, Feedback: fb, HandlersQuantity: 1, Inputs: map[uint]<-chan int{1: in}, Output: out})
+	if err != nil {
+		t.Fatal(err)
+	}
+	<-out
+	time.Sleep(50 * time.Millisecond)
+	cancel()
+	if !vWithin(func() { <-d.Err() }) {
+		fmt.Println("VASSERT-FAILED: C16: after Stop/cancel the scheduling goroutine blocks for ever (context cancelled, all handlers busy)")
+		return
+	}
+	fmt.Println("VSCENARIO-OK")
+}
+
 // Simple: Handle honours its context but is still working; Stop() must return and no Handle may be running
 func TestVerifScenarioC16Simple(t *testing.T) {
 	in := make(chan int, 1)
